@@ -281,6 +281,70 @@ def get : List Cfg → String → Option String → Option String → Option Str
           | none => .error err
           | some d => .ok (key, ⟨d, "default value", []⟩)
 
+/-! #### Lookup together with the configuration the answer is bound to
+
+Every `ConfigurationEntry` keeps a reference to the variable dictionary of the configuration that
+created it (`vars_dict=self.vars`; `_vars_dict` is never rebound, `update_vars`/`clear_vars` change it in
+place): an entry stored in a configuration is bound to *that* configuration's variables — also when it
+is handed out through another configuration's fallback chain —, and the entries `get` builds for an
+override (`value=`) or for the supplied default are bound to the variables of the configuration that
+was asked.  `getItemAt`/`getAt` are `getItem`/`get` together with the position in the chain
+(0 = the configuration asked, 1 = its fallback, 2 = the fallback's fallback …) of the configuration the
+answer is bound to; `.replaced` / `.replace()` on the answer use the variables found there. -/
+
+/-- `Configuration.__getitem__(key)` with the position of the answering configuration in the chain -/
+def getItemAt : List Cfg → String → Except Err (Nat × Item)
+  | [], _ => .error .missingConfiguration
+  | c :: rest, key =>
+    match dget? c.sections key with
+    | some s => .ok (0, .sect key s)
+    | none =>
+      match c.masterSection with
+      | .ok (_, m) =>
+        match dget? m key with
+        | some e => .ok (0, .entry key e)
+        | none => .error .missingEntry
+      | .error _ =>
+        match getItemAt rest key with
+        | .ok r => .ok (r.1 + 1, r.2)
+        | .error _ => .error .missingSection
+
+/-- `Configuration.get(key, value, section, default)` with the position of the configuration whose
+variable dictionary the returned entry holds: the default is applied by the configuration that was
+asked (`self.fallback_config.get(key=key, section=section)` is called *without* the default) -/
+def getAt : List Cfg → String → Option String → Option String → Option String →
+    Except Err (Nat × String × Entry)
+  | [], _, _, _, _ => .error .missingConfiguration
+  | c :: rest, key, value, sect, dflt =>
+    match value with
+    | some v => .ok (0, key, ⟨v, "method call", []⟩)
+    | none =>
+      let own : Except Err (Nat × String × Entry) :=
+        match sect with
+        | none => match c.masterSection with
+          | .error e => .error e
+          | .ok (_, m) => (sectionEntry m key).map (fun e => (0, key, e))
+        | some s => match getItemAt (c :: rest) s with
+          | .error e => .error e
+          | .ok (d, .entry k e) => .ok (d, k, e)
+          | .ok (d, .sect _ sec) => (sectionEntry sec key).map (fun e => (d, key, e))
+      match own with
+      | .ok r => .ok r
+      | .error err =>
+        match getAt rest key none sect none with
+        | .ok r => .ok (r.1 + 1, r.2)
+        | .error _ =>
+          match dflt with
+          | none => .error err
+          | some d => .ok (0, key, ⟨d, "default value", []⟩)
+
+/-- the variables (`cfg.vars`, as they are when the entry is looked at) of the configuration at
+position `d` of the chain -/
+def varsAt (chain : List Cfg) (d : Nat) : List (String × String) :=
+  match chain[d]? with
+  | some c => c.vars
+  | none => []
+
 /-- `Configuration.exists(key, section=None)` -/
 def cfgExists (chain : List Cfg) (key : String) (sect : Option String) : Except Err Bool :=
   match chain with
@@ -473,6 +537,26 @@ def entryReplace (entryVars callVars : List (String × String)) (dflt : Option S
     Except RErr String :=
   let vars := callVars.foldl (fun acc (k, x) => dset acc k x) entryVars
   (replaceVars vars dflt 64 v.toList).map String.ofList
+
+/-! #### `.replaced` / `.replace()` on what a lookup hands back -/
+
+/-- `cfg.get(key, value, section, default).replace(default=rdflt, **callVars)` (`.replaced` when both
+are empty) -/
+def getReplaced (chain : List Cfg) (key : String) (value sect dflt : Option String)
+    (callVars : List (String × String)) (rdflt : Option String) :
+    Except Err (Nat × String × Entry × Except RErr String) :=
+  (getAt chain key value sect dflt).map fun r =>
+    (r.1, r.2.1, r.2.2, entryReplace (varsAt chain r.1) callVars rdflt r.2.2.value)
+
+/-- `cfg[section][key].replace(default=rdflt, **callVars)`, the section possibly found through the
+fallback chain (`__getitem__`) -/
+def itemReplaced (chain : List Cfg) (sect key : String) (callVars : List (String × String))
+    (rdflt : Option String) : Except Err (Nat × Entry × Except RErr String) :=
+  match getItemAt chain sect with
+  | .error e => .error e
+  | .ok (_, .entry _ _) => .error .key          -- an entry of the master section: not a section
+  | .ok (d, .sect _ sec) =>
+    (sectionEntry sec key).map fun e => (d, e, entryReplace (varsAt chain d) callVars rdflt e.value)
 
 /-! ### Text: `entry_as_str`, `as_str`, and reading it back -/
 
